@@ -79,9 +79,7 @@ def specBuild (prop : String) (ba : BuildArgs) (o : Out) : Option String :=
        | .ok r =>
          match r.parsed with
          | none => some "data-codewords-do-not-parse-as-one-segment"
-         | some p => firstFail [
-             cmp "decoded-bytes" (toHex ba.input) (toHex p.bytes),
-             cmp "decoded-mode-vs-reported" (optStr s.mode) (modeIxStr p.mode)])
+         | some p => cmp "decoded-bytes" (toHex ba.input) (toHex p.bytes))
     | "C02" =>
       (match decodeSym s with
        | .error e => some ("undecodable:" ++ e)
